@@ -26,7 +26,8 @@ RULE = (
 ASSUMPTIONS = [
     "valid pixels whose received disparity is off-sample (after an averaging filter or a previous refinement) or whose "
     "centre cost is NaN are judged on the weak clauses only: no exception, finite result, invalid pixels untouched, "
-    "only bit 3 may change",
+    "only bit 3 may change; off-sample pixels additionally: at most half a sample away from the received value, and "
+    "unchanged when bit 3 is newly raised",
     "tolerance 1e-5 relative / 1e-6 absolute on refined disparity and fitted cost (float32 storage)",
 ]
 
@@ -83,6 +84,15 @@ def judge(ctx: Ctx, tag: str, method: str, cv, axis, type_measure, subpix, d_b, 
                     k = i
             if k is None or math.isnan(float(cv[r, c, k])):
                 ctx.unspecified += 1
+                # off-sample received disparity (after an averaging filter or an earlier refinement): which triple is fitted
+                # is not specified, but the pixel still moves by at most half a sample from what it RECEIVED, and a pixel
+                # whose interpolation is stopped (bit 3 newly raised) is left exactly where it was
+                if k is None:
+                    if abs(da - db) > 0.5 / subpix + 1e-6 + 1e-5 * max(1.0, abs(db)):
+                        ctx.violation("C06/moved-more-than-half-sample", f"{tag} pixel {(r, c)} off-sample disp {db}->{da} "
+                                                                         f"subpix={subpix} ({method})")
+                    elif (ma & 8) and not (mb & 8) and da != db:
+                        ctx.violation("C06/stopped-pixel-moved", f"{tag} pixel {(r, c)} off-sample disp {db}->{da}, bit 3 raised")
                 continue
             ctx.judged += 1
             c1 = float(cv[r, c, k])
